@@ -231,6 +231,7 @@ where
     size: u64,
     replaced_hash: Option<BlobHash>,
     committed: bool,
+    keep_protection: bool,
 }
 
 #[derive(Debug, Clone, Copy)]
@@ -248,9 +249,24 @@ where
         mut self,
         delete_fn: &crate::types::DeleteBlobCallFn,
     ) -> Result<(), IndexError> {
-        self.index.apply_put_op(self.key.clone(), self.hash, self.size, delete_fn)?;
-        self.committed = true;
-        Ok(())
+        match self.index.apply_put_op(self.key.clone(), self.hash, self.size, delete_fn) {
+            Ok(()) => {
+                self.committed = true;
+                Ok(())
+            }
+            Err(e) => {
+                // A failed WAL append may still have left the record in the log (written but
+                // not synced, or retained in the segment writer's buffer and flushed together
+                // with the next entry), so the put can come back when the log is replayed. Keep
+                // its blob protected for the lifetime of this handle: otherwise a later
+                // operation that drops the last other reference to the same content would
+                // delete it, and the next open would find an indexed key without its blob.
+                if matches!(e, IndexError::Wal(_)) {
+                    self.keep_protection = true;
+                }
+                Err(e)
+            }
+        }
     }
 }
 
@@ -263,7 +279,9 @@ where
 
         // Committed or not, this commit no longer needs its blob to be protected: either the
         // index references it by now, or the commit is abandoned.
-        intents.unprotect(&self.hash);
+        if !self.keep_protection {
+            intents.unprotect(&self.hash);
+        }
 
         if !self.committed {
             // Revert: Remove our intent from pending_intents
@@ -352,6 +370,7 @@ where
             size: meta.blob_size,
             replaced_hash,
             committed: false,
+            keep_protection: false,
         })
     }
 
